@@ -1,7 +1,7 @@
 (* C13 — Hot reload applies every changed parameter to running components.
    core_table / pointer_fields are generated from internal/core/core.go and internal/conf/conf.go on this run. *)
 From Coq Require Import List String ZArith Bool.
-Require Import MTX.Model.C13_Reload MTX.Proofs.C13_Reload MTXGen.C13_CoreDeps.
+Require Import MTX.Model.C13_Reload MTX.Proofs.C13_Reload MTX.Proofs.C13_Live MTXGen.C13_CoreDeps.
 Import ListNotations.
 Local Open Scope string_scope.
 Local Open Scope list_scope.
@@ -52,6 +52,63 @@ Theorem C13_core_tight : loose core_table pointer_fields = [].
 Proof. vm_compute. reflexivity. Qed.
 Print Assumptions C13_core_tight.
 
+(* --- the running components, for every table, every oracle for the guard atoms and every history of reloads ---
+   Inv atomv tbl n cur s: for every row r of the table,
+     s (comp r) = None  <->  the creation condition of r is false in cur          (absent iff disabled)
+     and if s (comp r) = Some i:  0 < gen i < n,
+        hval i f = val (cur f)  for every field f the construction block of r reads    (runs with the current values)
+        href i d = gen_of (s d) for every component d handed to the constructor        (no stale reference)        *)
+
+(* New (createResources on an empty Core) establishes it *)
+Theorem C13_invariant_established : forall atomv tbl, well_ordered [] tbl = true -> misordered [] tbl = [] ->
+  forall c0, Inv atomv tbl 2 c0 (start atomv tbl c0).
+Proof. intros atomv tbl Hwo Hord c0. exact (Inv_start atomv tbl Hwo Hord c0). Qed.
+Print Assumptions C13_invariant_established.
+
+(* every successful reloadConf (closeResources with its in-place reloads, conf.Store, createResources) preserves it *)
+Theorem C13_invariant_preserved : forall atomv tbl ptrs, well_ordered [] tbl = true -> incomplete tbl = [] ->
+  dangling tbl = [] -> unguarded tbl = [] -> misordered [] tbl = [] ->
+  forall old new, ptr_wf old new -> forall n s, (0 < n)%Z ->
+  Inv atomv tbl n old s -> Inv atomv tbl (n + 1) new (reload atomv n tbl ptrs old new s).
+Proof. intros atomv tbl ptrs Hwo Hinc Hdang Hung Hord old new Hwf n s.
+       exact (Inv_step atomv tbl ptrs Hwo Hinc Hdang Hung Hord old new Hwf n s). Qed.
+Print Assumptions C13_invariant_preserved.
+
+(* hence after ANY history of reloads every running component runs with the values of the last configuration *)
+Theorem C13_history : forall atomv tbl ptrs, well_ordered [] tbl = true -> incomplete tbl = [] ->
+  dangling tbl = [] -> unguarded tbl = [] -> misordered [] tbl = [] ->
+  forall c0 hist, chain_wf c0 hist ->
+  Inv atomv tbl (2 + Z.of_nat (List.length hist)) (last hist c0) (run atomv 2 tbl ptrs c0 (start atomv tbl c0) hist).
+Proof. intros atomv tbl ptrs Hwo Hinc Hdang Hung Hord. exact (history atomv tbl ptrs Hwo Hinc Hdang Hung Hord). Qed.
+Print Assumptions C13_history.
+
+(* a component none of whose parameters changed keeps running: same instance, same held components *)
+Theorem C13_keeps_running : forall atomv tbl ptrs, well_ordered [] tbl = true ->
+  forall old new n s r i, In r tbl -> s (comp r) = Some i -> ~ Closes tbl ptrs old new (comp r) ->
+  exists i', reload atomv n tbl ptrs old new s (comp r) = Some i' /\ gen i' = gen i /\ href i' = href i.
+Proof. intros atomv tbl ptrs Hwo old new. exact (keeps_running atomv tbl ptrs Hwo old new). Qed.
+Print Assumptions C13_keeps_running.
+
+(* a closed component is a new instance built from the new configuration, or absent because it is now disabled *)
+Theorem C13_recreated_fresh : forall atomv tbl ptrs, well_ordered [] tbl = true ->
+  forall old new n s r, In r tbl -> Closes tbl ptrs old new (comp r) ->
+  match reload atomv n tbl ptrs old new s (comp r) with
+  | Some i' => gen i' = n /\ forall f, hval i' f = val (new f)
+  | None => enabled atomv r new = false
+  end.
+Proof. intros atomv tbl ptrs Hwo old new. exact (recreated_fresh atomv tbl ptrs Hwo old new). Qed.
+Print Assumptions C13_recreated_fresh.
+
+(* the creation condition of every component only reads fields its close predicate compares *)
+Theorem C13_core_guarded : unguarded core_table = [].
+Proof. vm_compute. reflexivity. Qed.
+Print Assumptions C13_core_guarded.
+
+(* createResources constructs the components in the order of the table, every component after those handed to it *)
+Theorem C13_core_create_order : misordered [] core_table = [] /\ map comp core_table = create_order.
+Proof. vm_compute. split; reflexivity. Qed.
+Print Assumptions C13_core_create_order.
+
 (* non-vacuity: the table is not empty and a changed ReadTimeout closes the API server *)
 Example C13_example :
   (16 <=? List.length core_table)%nat = true /\
@@ -59,4 +116,17 @@ Example C13_example :
     (fun f => {| val := if String.eqb f "ReadTimeout" then 1 else 0; addr := 0 |}) "api" = true /\
   closes_eval core_table pointer_fields (fun _ => {| val := 0; addr := 0 |})
     (fun f => {| val := if String.eqb f "HLSSegmentCount" then 1 else 0; addr := 0 |}) "rtspServer" = false.
+Proof. vm_compute. repeat split. Qed.
+
+(* non-vacuity of the history theorem on the generated table: RTSP switched off, then on again (atoms: a boolean
+   field is true when its abstract value is even, a constant test when it is 0) *)
+Example C13_history_example :
+  let atomv := fun (f t : string) (v : Z) => if String.eqb t "" then Z.even v else Z.eqb v 0 in
+  let c0 : conf := fun _ => {| val := 0; addr := 0 |} in
+  let c1 : conf := fun f => {| val := if String.eqb f "RTSP" then 1 else 0; addr := 0 |} in
+  let s1 := run atomv 2 core_table pointer_fields c0 (start atomv core_table c0) [c1] in
+  let s2 := run atomv 2 core_table pointer_fields c0 (start atomv core_table c0) [c1; c0] in
+  (gen_of (start atomv core_table c0 "rtspServer"), gen_of (s1 "rtspServer"), gen_of (s2 "rtspServer")) = (1, 0, 3)%Z /\
+  (gen_of (s1 "hlsServer"), gen_of (s1 "api"), gen_of (s2 "api"), gen_of (s2 "hlsServer")) = (1, 2, 3, 1)%Z /\
+  match s2 "api" with Some i => href i "rtspServer" | None => 0%Z end = 3%Z.
 Proof. vm_compute. repeat split. Qed.
